@@ -94,7 +94,7 @@ class Sub:
 
     def __init__(self, name, strategy, body, quick, thorough, rule,
                  shards_quick=1, shards_thorough=4, weight=1.0, needs_fork=False,
-                 shrink_budget=(45, 240), case_timeout=(60, 240)):
+                 shrink_budget=(45, 240), case_timeout=(60, 240), shrink=True):
         self.name = name
         self.strategy = strategy  # callable tier -> hypothesis strategy producing JSON-able case
         self.body = body  # body(case, ctx)
@@ -107,6 +107,7 @@ class Sub:
         self.needs_fork = needs_fork
         self.shrink_budget = shrink_budget
         self.case_timeout = case_timeout
+        self.shrink = shrink
 
     def n_examples(self, tier):
         return self.quick if tier == "quick" else self.thorough
@@ -262,10 +263,12 @@ def run_shard(prop_id, sub, tier, seed, shard, n_examples):
     remaining = n_examples
 
     for _round in range(4):
-        state = {"first_fail_t": None, "best": None, "best_key": None, "best_detail": None, "failing": {}}
+        state = {"first_fail_t": None, "best": None, "best_key": None, "best_detail": None, "failing": {}, "gen": 0}
 
         def wrapped(case):
             ctx.begin(case)
+            if state["first_fail_t"] is None:
+                state["gen"] += 1   # examples of the generation phase (shrinking replays are not charged to the budget)
             expired = state["first_fail_t"] is not None and (time.time() - state["first_fail_t"]) > budget
             if expired:
                 # shrink budget used up: answer from memory so the shrinker finishes quickly
@@ -320,7 +323,7 @@ def run_shard(prop_id, sub, tier, seed, shard, n_examples):
                 ctx._in_hyp = False
 
         test = hseed(derive_seed(shard_seed, _round))(
-            hyp_settings(remaining, tier)(given(strategy)(wrapped))
+            hyp_settings(remaining, tier, shrink=sub.shrink)(given(strategy)(wrapped))
         )
         before = ctx.examples
         try:
@@ -329,7 +332,9 @@ def run_shard(prop_id, sub, tier, seed, shard, n_examples):
         except Violation:
             found.append({"key": state["best_key"], "detail": state["best_detail"], "case": state["best"]})
             excluded.add(state["best_key"])
-            remaining = max(50, remaining - (ctx.examples - before))
+            remaining = remaining - state["gen"]
+            if remaining <= 0:
+                break
             continue
         except HangAbort as h:
             hangs += 1
@@ -343,7 +348,9 @@ def run_shard(prop_id, sub, tier, seed, shard, n_examples):
                 found.append({"key": key, "detail": f"no return after {timeout} s (a case of this sub-check normally takes well under a second); innermost library frame {h.where}",
                               "case": json.loads(canon(state.get("current")))})
             excluded.add(key)
-            remaining = max(50, remaining - (ctx.examples - before))
+            remaining = remaining - state["gen"]
+            if remaining <= 0:
+                break
             if hangs >= 2:
                 break
             continue
